@@ -152,6 +152,17 @@ func (k *classifier) classify(e ast.Expr) posClass {
 		visit := func(g *FuncInfo) {
 			ginfo := g.Pkg.TypesInfo
 			ast.Inspect(g.Body(), func(n ast.Node) bool {
+				// `var startRecord int = record` (a binding the inliner makes for a renamed parameter)
+				if vs, ok := n.(*ast.ValueSpec); ok {
+					for i, nm := range vs.Names {
+						if ginfo.Defs[nm] == types.Object(v) && i < len(vs.Values) {
+							found = true
+							sub := &classifier{c: k.c, f: g, busy: k.busy}
+							res = joinClass(res, sub.classify(vs.Values[i]))
+						}
+					}
+					return true
+				}
 				as, ok := n.(*ast.AssignStmt)
 				if !ok {
 					return true
@@ -370,6 +381,18 @@ func ruleC04Units(c *Ctx) {
 				}
 				if b, ok := fv.Type().Underlying().(*types.Basic); !ok || b.Info()&types.IsInteger == 0 {
 					continue
+				}
+				// the content/last-known distinction exists only in the header models, which carry both positions
+				if st, ok := info.Types[cl].Type.Underlying().(*types.Struct); ok {
+					both := false
+					for j := 0; j < st.NumFields(); j++ {
+						if nameClass(st.Field(j).Name()).age == "lastknown" {
+							both = true
+						}
+					}
+					if !both {
+						want.age = ""
+					}
 				}
 				nsites++
 				got := kl.classify(kv.Value)
